@@ -170,6 +170,8 @@ def minimise(run, trace, rule, seconds=MAX_SECONDS):
 
     try_cfg(set_cfg("init_cap", None))
     try_cfg(set_cfg("hasher", "Fixed"))
+    if cur["config"].get("shards") is not None:
+        try_cfg(set_cfg("shards", None))
     try_cfg(set_cfg("tti", None))
     try_cfg(set_cfg("ttl", None))
     try_cfg(set_cfg("weigher", False))
